@@ -42,6 +42,9 @@ def intervals_wide(r, unsigned, maxn=6):
             b = r.choice(anchors) + r.randint(0, 40)
         b = min(max(b, lo), hi - 1)
         e = min(b + r.choice([1, 1, 2, 3, 5, 8, 13, 30]), hi)
+        if r.random() < 0.12:
+            # an interval spanning a large part of the type (length 2^62 .. almost the whole type)
+            e = min(max(b + 1, r.choice([b + 2 ** 62, b + 2 ** 63 - 1, b + 2 ** 63, b + 2 ** 63 + 5, hi - r.randint(0, 3)])), hi)
         out.append((b, e))
     r.shuffle(out)
     return out
